@@ -14,3 +14,11 @@ func VerifCheckNextSignalingState(cur, next SignalingState, op int, sdpType SDPT
 // VerifErrRemoteDescriptionWithoutMid is the sentinel SetRemoteDescription and
 // CreateAnswer return for a media section without a mid.
 var VerifErrRemoteDescriptionWithoutMid = errPeerConnRemoteDescriptionWithoutMidValue //nolint:gochecknoglobals
+
+// VerifErrAddressRewriteWithNAT1To1 is what ICE agent creation returns for a
+// SettingEngine that carries both address rewrite rules and NAT1To1 IPs
+// (C03: Gather / AddRemoteCandidate failing after the transition).
+var VerifErrAddressRewriteWithNAT1To1 = errAddressRewriteWithNAT1To1 //nolint:gochecknoglobals
+
+// VerifErrExcessiveRetries is CreateOffer's refusal after 128 regenerations.
+var VerifErrExcessiveRetries = errExcessiveRetries //nolint:gochecknoglobals
